@@ -227,7 +227,7 @@ CHECKS = {
              "operations, for all sequences up to length 6 (7-8 thorough) over {a,c,g,t,n,A}, k in {2,3}; three wrong "
              "variants are refuted. Emitted sequences (MinKmerLen lowered), exhaustive k=4 and random sequences up to 5000 "
              "letters, k 4..10, with runs of invalid bytes run through the real index; KmerTrace.tla judges every result. KmerQueries.tla models the built index as a state machine of queries whose answers depend on the indexed sequence only (negative control: answers that alias the position table); on the real code every answer is overwritten by the caller and all questions are asked again.",
-        note="Trusted: the driver's dump of positions maps and callbacks; full maps judged up to 400 letters, longer "
+        note="This check also runs two extensions outside C10, judged as drift only: Util/DeBruijn.tla (util.DeBruijn) and Util/Wrapper.tla (the line-wrapping, limiting io.Writer util.Wrapper as a state machine, 12400 exhaustive small call histories plus random ones replayed on the real code). Trusted: the driver's dump of positions maps and callbacks; full maps judged up to 400 letters, longer "
              "sequences on sampled words and ranges.",
         ref="DESIGN.md §6 C10"),
     "C14": dict(
